@@ -15,6 +15,7 @@
 //	c := vnode.NewCluster(dir, vnode.Fast()) // dir: scratch directory (t.TempDir()); Options: raft timing knobs
 //	defer c.Close()                          // closes every node and the network; never fails
 //	n, err := c.Start("n0", "id0")           // start (or restart on the same dir+address) endpoint n0 with raft ID id0
+//	c.StartDir(name, id, dir, opts)          // same with explicit options and data directory (node moves to a new address)
 //	c.Bootstrap(n)                           // single-node bootstrap
 //	c.Join(n1, n0, voter)                    // n1 asks n0 (cluster client JOIN, follows redirects) to add it
 //	c.Form(3, 1)                             // convenience: 3 voters + 1 non-voter, bootstrapped, joined, leader known everywhere
@@ -163,10 +164,16 @@ func (c *Cluster) Start(name, id string) (*Node, error) { return c.StartWith(nam
 // re-uses address and directory (only sensible for a wiped directory: see
 // Wipe).
 func (c *Cluster) StartWith(name, id string, o Options) (*Node, error) {
+	return c.StartDir(name, id, filepath.Join(c.Dir, name), o)
+}
+
+// StartDir is StartWith with an explicit data directory, e.g. the directory of
+// a stopped node that comes back on a different endpoint (same node, new
+// address).
+func (c *Cluster) StartDir(name, id, dir string, o Options) (*Node, error) {
 	if old := c.Node(name); old != nil && old.up {
 		return nil, fmt.Errorf("vnode: %s already running", name)
 	}
-	dir := filepath.Join(c.Dir, name)
 	if err := os.MkdirAll(dir, 0o755); err != nil {
 		return nil, err
 	}
@@ -373,7 +380,7 @@ func (c *Cluster) Restart(n *Node) (*Node, error) {
 	if n.up {
 		return n, nil
 	}
-	return c.StartWith(n.Name, n.ID, n.opts)
+	return c.StartDir(n.Name, n.ID, n.Dir, n.opts)
 }
 
 // Wipe removes the data directory of a stopped node (so the endpoint can come
